@@ -24,8 +24,53 @@ def link_name(ms):
     return "/".join("%s.%s" % m for m in ms)
 
 
+def _var_of(f, i):
+    """Name of the local variable an expression denotes (through casts/parens), or None."""
+    n = f.nodes[f.strip(i)]
+    if n["k"] == "DeclRefExpr" and n.get("dk") in ("local", "param", None, "var"):
+        return n.get("name")
+    return None
+
+
+def traversals(f, heads):
+    """[(head, link, node)]: a local pointer that is set from a list head (declaration or assignment) and
+    advanced by `p = p-><link>` somewhere in the function, whatever the loop statement looks like."""
+    head_of = {}        # variable -> (head name, node)
+    steps = []          # (variable, link members, node)
+    for i, n in enumerate(f.nodes):
+        if n["k"] == "DeclStmt":
+            for d in n.get("decls", []):
+                if d.get("init", -1) is not None and d.get("init", -1) >= 0:
+                    hm = _members(f, d["init"])
+                    if hm and "%s.%s" % hm[0] in heads and f.nodes[f.strip(d["init"])]["k"] == "MemberExpr":
+                        head_of.setdefault(d["name"], []).append(("%s.%s" % hm[0], i))
+        elif n["k"] == "BinaryOperator" and n.get("op") == "=":
+            v = _var_of(f, n["c"][0])
+            if v is None:
+                continue
+            rhs = f.nodes[f.strip(n["c"][1])]
+            ms = _members(f, n["c"][1])
+            if rhs["k"] != "MemberExpr" or not ms:
+                continue
+            # rhs rooted at the same variable: a step; rooted elsewhere and naming a head: a (re)start
+            root = None
+            for j in f.descendants(n["c"][1], include_self=True):
+                if f.nodes[j]["k"] == "DeclRefExpr":
+                    root = f.nodes[j].get("name")
+            if root == v:
+                steps.append((v, tuple(ms), i))
+            elif "%s.%s" % ms[0] in heads:
+                head_of.setdefault(v, []).append(("%s.%s" % ms[0], i))
+    out = []
+    for v, ms, i in steps:
+        hs = {h for h, _ in head_of.get(v, [])}
+        if len(hs) == 1:
+            out.append((list(hs)[0], link_name(ms), i))
+    return out
+
+
 def check(ctx, rule, want_file, minimum=1):
-    """Every `for (p = <head>; p; p = p-><link>)` loop in the functions selected by want_file(file, name)."""
+    """Every traversal `p = <head>; ... p = p-><link>` in the functions selected by want_file(file, name)."""
     with open(os.path.join(VERIF, "spec", "listlinks.json")) as fh:
         heads = json.load(fh)["heads"]
     prog = ctx.prog
@@ -34,21 +79,11 @@ def check(ctx, rule, want_file, minimum=1):
         if not want_file(f.file, f.name):
             continue
         seen = {}
-        for i, n in enumerate(f.nodes):
-            if n["k"] != "ForStmt" or n.get("init", -1) < 0 or n.get("inc", -1) < 0:
-                continue
-            hm, im = _members(f, n["init"]), _members(f, n["inc"])
-            if not hm or not im:
-                continue
-            head = "%s.%s" % hm[0]
-            if head not in heads:
-                continue
-            got = link_name(im)
+        for head, got, i in traversals(f, heads):
             k = seen[head] = seen.get(head, 0) + 1
             inst = "list-link:%s:%s#%d" % (f.name, head, k)
-            ok = got == heads[head]
             n_ok += 1
-            ctx.check(ok, rule, inst, f.loc(i),
+            ctx.check(got == heads[head], rule, inst, f.loc(i),
                       "%s walks the list %s through %s; that list is linked by %s, so the loop visits the wrong "
                       "elements (those of another list the element also belongs to)" % (f.name, head, got, heads[head]))
     ctx.need(n_ok >= minimum, "%s: only %d list traversals found (expected at least %d)" % (rule, n_ok, minimum))
